@@ -39,6 +39,17 @@ Script vocabulary (what the generator controls; the labels above are what the re
     [ping]  [reopen]      [D] run the loop until idle     [Y] one yield (callbacks already queued run)
     [stall]               the next write call of the send loop blocks (after handing its bytes over)
     [W]                   the blocked write call may return (the send-loop greenlet resumes at the next yield)
+
+Aged connections (script key 'aged': {'next': N, 'free': [t, ...]}; cfg line `<max> <flavour> <next> <free...>`).
+A fresh TagPool starts at _next = 1, so every tag of a script on a fresh connection fits in one byte.  With 'aged'
+the REAL pool of the freshly opened sink is first brought into the state (high-water mark N, released tags `free`)
+through its own get() / release() calls — N - 1 times get(), then release(t) for each t — exactly what earlier
+traffic on a long-lived connection would have done; the tags handed out and not released stay out for the whole
+script (calls in flight / timed-out calls whose Tdiscarded the peer never answered).  The Lean model starts from the
+same pool state (Adapter/TagPool.lean: Cfg.next, Cfg.free, initSt, Acc.init; hypothesis Pool.wf).  The generator
+releases tags that differ in ONE tag byte only (2 & 258 & 65538, 256 & 65792, 0x010203 & 0x010303 ...), so that
+such tags are in flight together, answered, timed out and discarded; peer frames then also name the byte-twins
+of the tags in flight.  A re-open gives a fresh sink with a fresh pool (as in the real stack).
 """
 from struct import pack, unpack
 
@@ -68,7 +79,10 @@ TRUSTED = ['fake socket harness/fakenet.py (peer bytes fed by the generator; wri
            'generator stalls it: then the call hands its bytes over and blocks on a gevent Event until released)',
            'logging subclasses of gevent.queue.Queue (send-step boundaries), scales.observable.Observable '
            '(timeout callback boundaries) and of the transport sink (_ProcessReply boundary) substituted at run time']
-ASSUMPTIONS = ['both transport sinks built on MuxSocketTransportSink are driven: ThriftMux SocketTransportSink and '
+ASSUMPTIONS = ['an aged connection is represented by its pool state (high-water mark, released tags); the tags handed out '
+               'before the script and not released are not in the tag map and are never released during the script (a '
+               'peer frame naming one of them is a frame on an unknown tag)',
+               'both transport sinks built on MuxSocketTransportSink are driven: ThriftMux SocketTransportSink and '
                'KafkaTransportSink (about a third of the scripts; Kafka replies are fed as size + correlation id)',
                'Close/re-open is issued at quiescent points only (closing races belong to C08)',
                'virtual time never advances inside a script, so the 30-40 s ping loop and the 5 s ping time-out do '
@@ -77,16 +91,85 @@ RULE = ('scripts drawn from the seeded generator; distinct = distinct (cfg, op l
         'order); non-trivial = the run reaches at least one of: tag reuse, request dropped unsent, Tdiscarded after '
         'transmission, answer before transmission, peer frame on a reserved/unknown/already-answered tag, pool '
         'exhaustion, re-open, a blocked write with a deadline expiring / an answer arriving / requests queueing '
-        'during it')
+        'during it; about a quarter of the scripts start on an AGED connection (the real pool brought to a high-water '
+        'mark past 2^8 / 2^16 with released tags that differ in one tag byte, through its own get()/release()) — tags '
+        'aged-*')
 
 MTYPES = [-2, -2, -2, -128, 127, -65, -66, 2, 66, 65, 0, 1, -1, 68, -68, 64, -64]
 
 
 # ------------------------------------------------------------------ generation
+AGED_SHARE = 0.25       # share of the generated scripts that run on an aged connection
+AGED_CAP = 0x20100      # ageing costs one real get() per tag below the high-water mark (~1.5 us each)
+
+
+def _side_rng(rng):
+    """the generator for everything that concerns ageing, derived from the state of the main generator without
+    drawing from it: the script stream of a seed is the one it was before aged connections existed (a fresh script
+    stays what it was, an aged one is that script on an aged connection), so cases that earlier runs and the
+    seeded-change regressions relied on are still produced — also in C02 / C12, which interleave these scripts
+    with those of other components on one generator"""
+    import random
+    st = rng.getstate()[1]
+    return random.Random('%d/%d/%d/%d' % (st[-1], st[st[-1] % 624], st[0], st[311]))
+
+
+def _twins(t):
+    """tags that differ from t in one tag byte, or that a sloppy 3-byte codec would confuse with t"""
+    out = {t ^ 0x100, t ^ 0x10000, t ^ 0x10100, t ^ 0x1, t & 0xffff, t & 0xff00ff, t & 0xff,
+           ((t >> 16) << 8) | (t & 0xffff), ((t >> 16) << 8) | (t & 0xff), (t >> 8) & 0xffff, t >> 8, t >> 16,
+           (t & 0xff0000) | ((t >> 16 & 0xff) << 8) | (t & 0xff), (t << 8) & 0xffffff, t | 0x10000, t | 0x100}
+    return sorted(x for x in out if x != t and 0 <= x < (1 << 24))
+
+
+def gen_aged(rng, mx=None):
+    """the starting pool of a long-lived connection: high-water mark and released tags.  Families of tags that
+    agree in two of their three bytes are released together, so the next requests hold them at the same time."""
+    if mx is not None:
+        # small pool: any state 1 <= next < max with some of the tags 2..next released
+        nxt = rng.randrange(2, mx)
+        pop = list(range(2, nxt + 1))
+        rng.shuffle(pop)
+        return {'next': nxt, 'free': sorted(pop[:rng.randrange(0, len(pop) + 1)])}
+    b = rng.choice([2, 2, 3, 5, 0x7f, 0x80, 0xff, rng.randrange(2, 256)])
+    fam = rng.choice([
+        [b, b + 0x100, b + 0x10000],
+        [b, b + 0x100, b + 0x10000, b + 0x10100],
+        [0x100, 0x10000, 0x10100],
+        [0x100, 0x101, 0x102, 0x10000, 0x10001, 0x10002, 0x201, 0x10201],
+        [0x010203, 0x010303, 0x020203, 0x010204, 0x0203, 0x0103],
+        [0x100 + b, 0x200 + b, 0x300 + b],                      # second byte only: a cheap, two-byte history
+        [0xff, 0x100, 0xffff, 0x10000],                         # byte boundaries
+        [b + 0x10000, b + 0x20000, (b << 8), 0x20000],
+        [rng.randrange(2, 1 << 17) for _ in range(rng.choice([2, 4, 6]))],
+    ])
+    fam = sorted(set(t for t in fam if 2 <= t <= AGED_CAP))
+    if rng.random() < 0.3:
+        fam = fam[:max(2, len(fam) - rng.randrange(0, 3))]
+    hi = max(fam)
+    nxt = rng.choice([hi, hi + 1, hi + rng.randrange(0, 300), max(hi, 0x010203), max(hi, 0xffff), max(hi, 0x10000),
+                      max(hi, 0xff), max(hi, 0x100)])
+    if rng.random() < 0.12:
+        fam = []                     # nothing released: the next tag is fresh, next + 1 (0x100, 0x10000, 0x010204 ...)
+        nxt = rng.choice([0xfe, 0xff, 0x100, 0xfffe, 0xffff, 0x10000, 0x010203, 0x1ffff])
+    return {'next': nxt, 'free': fam}
+
+
+def _aged_peer_tag(rng, aged, default):
+    """a raw peer tag for an aged script: mostly byte-twins of the released tags (which the requests then hold)"""
+    if not aged or rng.random() < 0.3:
+        return default
+    base = aged['free'] + [aged['next'], aged['next'] + 1, aged['next'] + 2]
+    t = rng.choice(base)
+    return rng.choice(_twins(t) + [t])
+
+
 def gen_script(rng, tier):
     small = rng.random() < 0.25
     mx = rng.choice([3, 4, 5, 6, 8]) if small else None
     flavour = 'kafka' if rng.random() < 0.35 else 'thriftmux'
+    arng = _side_rng(rng)
+    aged = gen_aged(arng, mx) if arng.random() < AGED_SHARE else None
     big = [1 << 31, (1 << 32) - 1, (1 << 31) - 1] if flavour == 'kafka' else []
     n = rng.choice([6, 12, 20, 30, 45] if tier != 'thorough' else [6, 12, 20, 30, 45, 80, 150])
     p_drain = rng.choice([0.1, 0.25, 0.5])
@@ -115,7 +198,7 @@ def gen_script(rng, tier):
             tag = rng.choice([0, 1, 1, 1, 2, 3, 4, 5, 6, 7, rng.randrange(2, 40), rng.randrange(0, 1 << 24),
                               REAL_MAX, REAL_MAX - 1] + big)
             mt = rng.choice(MTYPES) if rng.random() < 0.8 else rng.randrange(-128, 128)
-            ops.append(['peer', mt, tag])
+            ops.append(['peer', mt, _aged_peer_tag(arng, aged, tag)])
         elif x < 0.83:
             ops.append(['ping'])
         elif x < 0.88:
@@ -136,7 +219,13 @@ def gen_script(rng, tier):
             ops.append(['D'])
         if rng.random() < p_drain:
             ops.append(['D'])
-    return {'max': mx, 'flavour': flavour, 'ops': ops}
+    return _with_age({'max': mx, 'flavour': flavour, 'ops': ops}, aged)
+
+
+def _with_age(script, aged):
+    if aged:
+        script['aged'] = aged
+    return script
 
 
 def gen_script_focus(rng, tier, focus):
@@ -145,6 +234,8 @@ def gen_script_focus(rng, tier, focus):
     Tdiscarded that follows, answers racing the time-out callback (C12, multiplexed hop)"""
     mx = rng.choice([None, None, None, 6, 8])
     flavour = 'kafka' if rng.random() < 0.35 else 'thriftmux'
+    arng = _side_rng(rng)
+    aged = gen_aged(arng, mx) if arng.random() < AGED_SHARE else None
     ops = []
     nreq = 0
     pending = []      # rids with an unfired event
@@ -177,7 +268,7 @@ def gen_script_focus(rng, tier, focus):
                     if rng.random() < 0.25:
                         ops.append(['ans', r, -2])          # the same answer again
                 elif x < 0.85:
-                    ops.append(['peer', -2, rng.choice([0, 1, 2, 3, 4, 5, 9, 77])])
+                    ops.append(['peer', -2, _aged_peer_tag(arng, aged, rng.choice([0, 1, 2, 3, 4, 5, 9, 77]))])
                 elif x < 0.92 and pending:
                     ops.append(['fire', pending.pop(rng.randrange(len(pending)))])
                 if rng.random() < 0.35:
@@ -269,19 +360,23 @@ def gen_script_focus(rng, tier, focus):
                 if rng.random() < 0.5:
                     ops.append(['ans', r, rng.choice([-2, -66, -66, -128])])    # e.g. Rdiscarded
                     live.remove(r)
+                elif aged and arng.random() < 0.3:
+                    # the peer acknowledges a discard / answers on a byte-twin of a tag of this connection
+                    ops.append(['peer', arng.choice([-2, -66]), _aged_peer_tag(arng, aged, 3)])
             if rng.random() < 0.15:
                 ops.append(['ping'])
             ops.append(['D'])
         if rng.random() < 0.08:
             ops.append(['reopen'])
             nreq, pending, live = 0, [], []
-    return {'max': mx, 'flavour': flavour, 'ops': ops}
+    return _with_age({'max': mx, 'flavour': flavour, 'ops': ops}, aged)
 
 
 def exhaustive(tier, shard, shards):
     """every script of at most N steps over a small vocabulary (requests of the three deadline kinds, firing
     the latest pending deadline, answering the first / the latest request, peer frames on tags 1 and 3, an
-    answer that overtakes its request, full drain, single yield), small pool and real pool"""
+    answer that overtakes its request, full drain, single yield), small pool and real pool, fresh and aged
+    connection (on the aged ones tag 3 — the raw peer tag of the vocabulary — is a byte-twin of the tags in flight)"""
     nmax = 4 if tier == 'thorough' else 3
     k = [0]
 
@@ -292,6 +387,17 @@ def exhaustive(tier, shard, shards):
                     k[0] += 1
                     if k[0] % shards == shard:
                         yield {'max': mx, 'flavour': flavour, 'ops': list(prefix)}
+            # the same on an aged connection: tags that need the second byte (cheap to reach: every script), and
+            # tags that need the third byte next to one-byte ones (scripts of at most two steps)
+            k[0] += 1
+            if k[0] % shards == shard:
+                yield {'max': None, 'flavour': 'thriftmux', 'ops': list(prefix),
+                       'aged': {'next': 0x0203, 'free': [3, 0x103, 0x203]}}
+            if len(prefix) <= 2:
+                k[0] += 1
+                if k[0] % shards == shard:
+                    yield {'max': None, 'flavour': 'thriftmux', 'ops': list(prefix),
+                           'aged': {'next': 0x10103, 'free': [3, 0x103, 0x10003]}}
         if len(prefix) >= nmax:
             return
         for kind in ('noev', 'ev', 'pre'):
@@ -366,7 +472,19 @@ def shrink(script):
                 new.append(o)
             rest = new
         yield dict(script, ops=rest)
-    if script['max'] is None:
+    aged = script.get('aged')
+    if aged:
+        # a younger connection: fewer released tags, a lower high-water mark, no history at all
+        free = list(aged['free'])
+        for i in range(len(free)):
+            yield dict(script, aged=dict(aged, free=free[:i] + free[i + 1:]))
+        low = max(free + [1])
+        if aged['next'] > low:
+            yield dict(script, aged=dict(aged, next=low))
+        bare = dict(script)
+        del bare['aged']
+        yield bare
+    if script['max'] is None or aged:
         return
     yield dict(script, max=None)
 
@@ -443,6 +561,9 @@ def run_script(script):
     steps, recs, tags = [], [], set()
     mx = script.get('max') or REAL_MAX
     kafka = script.get('flavour') == 'kafka'
+    aged = script.get('aged') or None
+    if aged:
+        aged = {'next': int(aged['next']), 'free': [int(t) for t in aged['free']]}
 
     class Rec(object):
         active = False
@@ -625,8 +746,18 @@ def run_script(script):
         rec.blocked = None
         rec.active = True
 
+    def age_pool(pool):
+        """bring the REAL pool into the aged state the way traffic would: `next - 1` leases through get() (tags
+        2 .. next, the free set being empty meanwhile), then release() of the tags that came back"""
+        for _ in range(aged['next'] - 1):
+            pool.get()
+        for t in aged['free']:
+            pool.release(t)
+
     try:
         open_sink()
+        if aged:
+            age_pool(rec.sink._tag_pool)
         reqs = []      # per request id: dict(tag, ev, fired)
         for op in script['ops']:
             kind = op[0]
@@ -732,7 +863,63 @@ def run_script(script):
         steps.append(['send', vfmt(['raised', 0, [], [], [], [], 0, 0])])
     _tag_case(recs, tags)
     tags.add('kafka' if kafka else 'thriftmux')
-    return {'comp': COMPONENT, 'cfg': ('%d kafka' % mx) if kafka else str(mx), 'steps': steps, 'tags': sorted(tags)}
+    cfg = ('%d kafka' % mx) if kafka else str(mx)
+    if aged:
+        tags.add('aged-connection')
+        _tag_aged(recs, tags, aged)
+        cfg = ' '.join(str(x) for x in [mx, 'kafka' if kafka else 'thriftmux', aged['next']] + aged['free'])
+    return {'comp': COMPONENT, 'cfg': cfg, 'steps': steps, 'tags': sorted(tags)}
+
+
+def _one_byte_apart(a, b):
+    x = a ^ b
+    return x != 0 and (x & ~0xff == 0 or x & ~0xff00 == 0 or x & ~0xff0000 == 0)
+
+
+def _tag_aged(recs, tags, aged):
+    """coverage of an aged script (up to its first re-open): which tag widths were handed out, whether tags that
+    differ in one byte were in flight together, what happened to the wide tags"""
+    if aged['next'] >= 0x100:
+        tags.add('aged-next>=2^8')
+    if aged['next'] >= 0x10000:
+        tags.add('aged-next>=2^16')
+    wide = set()        # tags >= 256 given to requests of this script
+    timed_out = set()
+    rid_tag = {}
+    nreq = 0
+    for op, obs in recs:
+        res, assigned, frames, delivered, keys, free, nxt, qlen = obs
+        k = op[0]
+        if k == 'reopen':
+            break
+        if k == 'req':
+            if res == 'ok':
+                rid_tag[nreq] = assigned
+                if assigned >= 0x100:
+                    wide.add(assigned)
+                    tags.add('aged-tag>=2^8-assigned')
+                if assigned >= 0x10000:
+                    tags.add('aged-tag>=2^16-assigned')
+                if assigned > aged['next']:
+                    tags.add('aged-fresh-tag-past-start')
+            nreq += 1
+        for f in frames:
+            if f[0] == 'req' and f[1] >= 0x100:
+                tags.add('aged-wide-tag-written')
+            if f[0] == 'discard' and f[2] >= 0x100:
+                tags.add('aged-wide-tag-discarded')
+        if k == 'process':
+            t = op[2]
+            if delivered and t >= 0x100:
+                tags.add('aged-wide-tag-answered')
+            if not delivered and t not in (0, 1) and any(_one_byte_apart(t, x) for x in keys):
+                tags.add('aged-peer-frame-on-byte-twin-of-tag-in-flight')
+        if k == 'fire' and rid_tag.get(op[1], 0) >= 0x100 and rid_tag[op[1]] in keys:
+            tags.add('aged-wide-tag-timed-out')
+        if any(_one_byte_apart(a, b) for i, a in enumerate(keys) for b in keys[i + 1:]):
+            tags.add('aged-byte-twins-in-flight')
+        if len([t for t in keys if t >= 0x10000]) and len([t for t in keys if t < 0x100]):
+            tags.add('aged-1-byte-and-3-byte-tags-in-flight')
 
 
 def _tag_case(recs, tags):
@@ -817,6 +1004,7 @@ def _tag_case(recs, tags):
 
 def nontrivial(case):
     t = set(case.get('tags', []))
-    return bool(t & {'reuse', 'dropped-or-skipped-unsent', 'discard-sent', 'answer-before-transmission',
+    return bool(t & {'aged-byte-twins-in-flight', 'aged-wide-tag-answered', 'aged-wide-tag-discarded',
+                     'reuse', 'dropped-or-skipped-unsent', 'discard-sent', 'answer-before-transmission',
                      'frame-on-reserved-tag', 'frame-on-unknown-or-answered-tag', 'exhausted', 'reopen',
                      'timeout-during-some-write', 'answer-during-own-write', 'queued-behind-blocked-write'})
